@@ -157,6 +157,7 @@ Definition cstrnx_into (chk : bool) (B : Z) (d a : ct) (prec : meta) (none : boo
   let k := res_lb + ld prec in
   (if k <? two64 then ret tt else fail EOther) ;;;        (* checked_add *)
   to_znx_check (ld prec) ;;;
+  passert (1 <=? k) ;;;                                   (* encoding at torus precision 0 indexes limb -1 *)
   cstznx_into chk B d a (cst_at_k B k (ld prec) false).
 
 Definition cstrnx_assign (chk : bool) (B : Z) (dsize : Z) (prec : meta) (none : bool) : M unit :=
@@ -165,6 +166,7 @@ Definition cstrnx_assign (chk : bool) (B : Z) (dsize : Z) (prec : meta) (none : 
   let k := lb m + ld prec in
   (if k <? two64 then ret tt else fail EOther) ;;;
   to_znx_check (ld prec) ;;;
+  passert (1 <=? k) ;;;
   cstznx_assign chk dsize (cst_at_k B k (ld prec) false).
 
 (* ---- neg.rs ---- *)
@@ -193,13 +195,32 @@ Definition apply_params (p : M (Z * Z * Z)) : M unit :=
   let '(l, rld, cnv) := t in
   shift cnv ;;; set_lb l ;;; set_ld rld.
 
-Definition mul_into (B : Z) (d a b : ct) : M unit := apply_params (mul_ct_params B (maxk B d) (cm a) (cm b)).
-Definition mul_assign (B : Z) (d a : ct) : M unit := m <- get ;; apply_params (mul_ct_params B (maxk B d) m (cm a)).
-Definition square_assign (B : Z) (d : ct) : M unit := m <- get ;; apply_params (mul_ct_params B (maxk B d) m m).
+(* poulpy-core's glwe_tensor_apply / glwe_tensor_square_apply / glwe_mul_plain assert, after the parameters were
+   computed, that every ciphertext operand is stored compactly:  assert_eq!(effective_k.div_ceil(base2k), size)  *)
+Definition compact (B : Z) (m : meta) (size : Z) : bool := cdiv (eff m) B =? size.
+Definition apply_params_asserting (p : M (Z * Z * Z)) (c : bool) : M unit :=
+  t <- p ;;
+  passert c ;;;
+  let '(l, rld, cnv) := t in
+  shift cnv ;;; set_lb l ;;; set_ld rld.
+
+Definition mul_into (B : Z) (d a b : ct) : M unit :=
+  apply_params_asserting (mul_ct_params B (maxk B d) (cm a) (cm b))
+    (compact B (cm a) (csize a) && compact B (cm b) (csize b)).
+Definition mul_assign (B : Z) (d a : ct) : M unit :=
+  m <- get ;; apply_params_asserting (mul_ct_params B (maxk B d) m (cm a))
+    (compact B m (csize d) && compact B (cm a) (csize a)).
+Definition square_into (B : Z) (d a : ct) : M unit :=
+  apply_params_asserting (mul_ct_params B (maxk B d) (cm a) (cm a)) (compact B (cm a) (csize a)).
+Definition square_assign (B : Z) (d : ct) : M unit :=
+  m <- get ;; apply_params_asserting (mul_ct_params B (maxk B d) m m) (compact B m (csize d)).
+(* glwe_mul_plain also asserts equal base2k (no PlaintextBase2KMismatch on this path) *)
 Definition mulptz_into (B : Z) (d a : ct) (p : ptz) : M unit :=
-  apply_params (mul_pt_params (maxk B d) (cm a) (ld (pm p)) (pmaxk p)).
+  apply_params_asserting (mul_pt_params (maxk B d) (cm a) (ld (pm p)) (pmaxk p))
+    ((B =? pb2k p) && compact B (cm a) (csize a)).
 Definition mulptz_assign (B : Z) (d : ct) (p : ptz) : M unit :=
-  m <- get ;; apply_params (mul_pt_params (maxk B d) m (ld (pm p)) (pmaxk p)).
+  m <- get ;; apply_params_asserting (mul_pt_params (maxk B d) m (ld (pm p)) (pmaxk p))
+    ((B =? pb2k p) && compact B m (csize d)).
 (* constants: `prec` is cst_znx.meta() resp. the caller's prec; the digit count does not matter *)
 Definition mulcst_into (B : Z) (d a : ct) (prec : meta) : M unit :=
   apply_params (mul_pt_params (maxk B d) (cm a) (ld prec) (min_k B prec)).
@@ -251,7 +272,6 @@ Definition rescale_into (a : ct) (k : Z) : M unit :=
 
 (* ---- delegates/encryption.rs ---- *)
 Definition encrypt (chk : bool) (B : Z) (d : ct) (pt : meta) (enc_k : Z) : M unit :=
-  to_znx_check (ld pt) ;;;                               (* the plaintext is produced from f64 slots first *)
   passert (1 <=? cdiv enc_k B) ;;;                       (* NoiseInfos::target_limb_and_scale: k.div_ceil(base2k) - 1 *)
   passert (cdiv enc_k B <=? csize d) ;;;                 (* the noise limb must exist in the ciphertext *)
   l <- csub ECapacity enc_k (ld pt) ;;
@@ -291,15 +311,15 @@ Definition meta_m (chk : bool) (B : Z) (o : op) (d a b : ct) : M unit :=
   | OPtZnxAssign p => ptznx_assign chk B p
   | OPtRnxInto prec => ptrnx_into chk B d a prec
   | OPtRnxAssign prec => ptrnx_assign chk B prec
-  | OCstZnxInto l k none => to_znx_check l ;;; cstznx_into chk B d a (cst_at_k B k l none)
-  | OCstZnxAssign l k none => to_znx_check l ;;; cstznx_assign chk (csize d) (cst_at_k B k l none)
+  | OCstZnxInto l k none => to_znx_check l ;;; passert (none || (1 <=? k)) ;;; cstznx_into chk B d a (cst_at_k B k l none)
+  | OCstZnxAssign l k none => to_znx_check l ;;; passert (none || (1 <=? k)) ;;; cstznx_assign chk (csize d) (cst_at_k B k l none)
   | OCstRnxInto prec none => cstrnx_into chk B d a prec none
   | OCstRnxAssign prec none => cstrnx_assign chk B (csize d) prec none
   | ONegInto => neg_into B d a
   | ONegAssign => ret tt
   | OMulInto => mul_into B d a b
   | OMulAssign => mul_assign B d a
-  | OSquareInto => mul_into B d a a
+  | OSquareInto => square_into B d a
   | OSquareAssign => square_assign B d
   | OMulPtZnxInto p => mulptz_into B d a p
   | OMulPtZnxAssign p => mulptz_assign B d p
